@@ -229,6 +229,7 @@ def showEv (algs : List AlgSpec) (progs : List ProgInfo) : Ev → String
       s!"TX {a} CP {rd32 (b.drop 4)} {showUid progs (rd32 (b.drop 8))} {hexOrDash (b.drop 16)}"
     else if typ = 3 ∧ b.length ≥ 12 then s!"TX {a} UF {rd32 (b.drop 4)} {hexOrDash (b.drop 12)}"
     else s!"TX {a} OT {hexOrDash b}"
+  | .rx a n => s!"RX {a} {n}"
   | .txFail a => s!"TXFAIL {a}"
   | .newFlow n alg i h =>
     s!"NF {n} {(algs[alg]?.map (·.nameHex)).getD "?"} - {i.sid} {i.cwnd} {i.mss} {i.srcIp} {i.srcPort} {i.dstIp} {i.dstPort} h={h}"
